@@ -60,6 +60,15 @@ def digitsVal : List Nat → Option Nat
 def i64Min : Int := -9223372036854775808
 def i64Max : Int := 9223372036854775807
 
+def natDigits (n : Nat) : List Nat := (Nat.toDigits 10 n).map (fun c => c.toNat)
+
+def showInt (i : Int) : Bytes :=
+  match i with
+  | .ofNat n => natDigits n
+  | .negSucc n => 45 :: natDigits (n + 1)
+
+/-- since the `fix:` commit for C01:incr-noncanonical only the canonical rendering is accepted
+    (`007`, `+5`, `-0` are rejected) -/
 def parseI64 (b : Bytes) : Option Int :=
   let r : Option Int :=
     match b with
@@ -67,15 +76,8 @@ def parseI64 (b : Bytes) : Option Int :=
     | 43 :: ds => (digitsVal ds).map (fun n => (n : Int))
     | ds => (digitsVal ds).map (fun n => (n : Int))
   match r with
-  | some i => if i64Min ≤ i ∧ i ≤ i64Max then some i else none
+  | some i => if i64Min ≤ i ∧ i ≤ i64Max ∧ showInt i = b then some i else none
   | none => none
-
-def natDigits (n : Nat) : List Nat := (Nat.toDigits 10 n).map (fun c => c.toNat)
-
-def showInt (i : Int) : Bytes :=
-  match i with
-  | .ofNat n => natDigits n
-  | .negSucc n => 45 :: natDigits (n + 1)
 
 def wrongType : Reply := .one (.err errWrongType)
 
